@@ -38,14 +38,18 @@ def valOk (w : World) : Val → Prop
 
 def mapOk (w : World) (m : AMap) : Prop := ∀ kv ∈ m, valOk w kv.2
 
+/-- a slice header lies within a live backing array: `arr` exists, `[off, off+cap)` is inside it, `len ≤ cap` -/
+def sliceOk (w : World) (s : Slice) : Prop :=
+  s.arr < w.arrs.length ∧ s.off + s.cap ≤ (w.arrAt s.arr).length ∧ s.len ≤ s.cap
+
 structure Wf (w : World) : Prop where
   arr0 : 0 < w.arrs.length
-  strs : ∀ s ∈ w.strs, s.arr < w.arrs.length
+  strs : ∀ s ∈ w.strs, sliceOk w s
   sets : ∀ o ∈ w.sets, ∀ r, o = some r → r < w.maps.length
   maps : ∀ m ∈ w.maps, mapOk w m
 
 def Handle.ok (w : World) : Handle → Prop
-  | .arr s _ => s.arr < w.arrs.length
+  | .arr s _ => sliceOk w s
   | .str none => True
   | .str (some p) => p < w.strs.length
   | .set p => p < w.sets.length
@@ -62,9 +66,17 @@ theorem valOk_le {w w' : World} (h : Le w w') {v : Val} (hv : valOk w v) : valOk
 theorem mapOk_le {w w' : World} (h : Le w w') {m : AMap} (hm : mapOk w m) : mapOk w' m :=
   fun kv hkv => valOk_le h (hm kv hkv)
 
+theorem sliceOk_le {w w' : World} (h : Le w w') {s : Slice} (hs : sliceOk w s) : sliceOk w' s := by
+  refine ⟨Nat.lt_of_lt_of_le hs.1 h.arrs.length_le, ?_, hs.2.2⟩
+  have : w'.arrAt s.arr = w.arrAt s.arr := getD_of_prefix h.arrs hs.1 _
+  rw [this]; exact hs.2.1
+
+theorem sliceOk_nil {w : World} (h0 : 0 < w.arrs.length) : sliceOk w Slice.nil :=
+  ⟨h0, by simp [Slice.nil], Nat.le_refl _⟩
+
 theorem Handle.ok_le {w w' : World} (h : Le w w') {x : Handle} (hx : x.ok w) : x.ok w' := by
   cases x with
-  | arr s f => exact Nat.lt_of_lt_of_le hx h.arrs.length_le
+  | arr s f => exact sliceOk_le h hx
   | str p => cases p with
     | none => trivial
     | some q => exact Nat.lt_of_lt_of_le hx h.strs.length_le
@@ -75,13 +87,15 @@ theorem Handle.ok_le {w w' : World} (h : Le w w') {x : Handle} (hx : x.ok w) : x
 theorem Wf.init : Wf World.init :=
   ⟨by simp [World.init], by simp [World.init], by simp [World.init], by simp [World.init]⟩
 
-theorem strHdr_arr_lt {w : World} (hw : Wf w) (p : Nat) : (w.strHdr p).arr < w.arrs.length := by
+theorem strHdr_ok {w : World} (hw : Wf w) (p : Nat) : sliceOk w (w.strHdr p) := by
   unfold strHdr
   by_cases hp : p < w.strs.length
   · exact hw.strs _ (getD_mem hp _)
   · have : w.strs.getD p Slice.nil = Slice.nil := by
       simp [List.getD_eq_getElem?_getD, List.getElem?_eq_none (Nat.le_of_not_lt hp)]
-    rw [this]; exact hw.arr0
+    rw [this]; exact sliceOk_nil hw.arr0
+
+theorem strHdr_arr_lt {w : World} (hw : Wf w) (p : Nat) : (w.strHdr p).arr < w.arrs.length := (strHdr_ok hw p).1
 
 theorem setMap_ok {w : World} (hw : Wf w) (p : Nat) : mapOk w (w.setMap p) := by
   unfold setMap
@@ -147,7 +161,7 @@ theorem setContent_le {w w' : World} (hw : Wf w) (h : Le w w') {p : Nat} (hp : p
 theorem content_le {w w' : World} (hw : Wf w) (h : Le w w') {x : Handle} (hx : x.ok w) :
     content w' x = content w x := by
   cases x with
-  | arr s f => simp only [content]; rw [sliceContent_le h hx, sliceHidden_le h hx]
+  | arr s f => simp only [content]; rw [sliceContent_le h hx.1, sliceHidden_le h hx.1]
   | str p => cases p with
     | none => rfl
     | some q => simp only [content]; rw [strContent_le hw h hx]
@@ -166,17 +180,21 @@ theorem Good.refl {w : World} (hw : Wf w) : Good w w := ⟨Le.refl w, hw⟩
 
 theorem Good.trans {a b c : World} (h₁ : Good a b) (h₂ : Good b c) : Good a c := ⟨h₁.le.trans h₂.le, h₂.wf⟩
 
+theorem allocArr_le (w : World) (l : List Int) : Le w (w.allocArr l).1 :=
+  ⟨List.prefix_append _ _, List.prefix_refl _, List.prefix_refl _, List.prefix_refl _⟩
+
 theorem allocArr_good {w : World} (hw : Wf w) (l : List Int) :
-    Good w (w.allocArr l).1 ∧ (w.allocArr l).2.arr < (w.allocArr l).1.arrs.length := by
-  refine ⟨⟨⟨List.prefix_append _ _, List.prefix_refl _, List.prefix_refl _, List.prefix_refl _⟩, ?_⟩, ?_⟩
+    Good w (w.allocArr l).1 ∧ sliceOk (w.allocArr l).1 (w.allocArr l).2 := by
+  refine ⟨⟨allocArr_le w l, ?_⟩, ?_⟩
   · refine ⟨?_, ?_, hw.sets, hw.maps⟩
     · simp [allocArr]
-    · intro s hs; have := hw.strs s hs; simp [allocArr]; omega
-  · simp [allocArr]
+    · intro s hs; exact sliceOk_le (allocArr_le w l) (hw.strs s hs)
+  · refine ⟨by simp [allocArr], ?_, Nat.le_refl _⟩
+    simp [allocArr, arrAt, List.getD_eq_getElem?_getD]
 
 theorem allocArr_snd (w : World) (l : List Int) : (w.allocArr l).2 = ⟨w.arrs.length, 0, l.length, l.length⟩ := rfl
 
-theorem allocStr_good {w : World} (hw : Wf w) {s : Slice} (hs : s.arr < w.arrs.length) :
+theorem allocStr_good {w : World} (hw : Wf w) {s : Slice} (hs : sliceOk w s) :
     Good w (w.allocStr s).1 ∧ (w.allocStr s).2 < (w.allocStr s).1.strs.length := by
   refine ⟨⟨⟨List.prefix_refl _, List.prefix_append _ _, List.prefix_refl _, List.prefix_refl _⟩, ?_⟩, ?_⟩
   · refine ⟨hw.arr0, ?_, hw.sets, ?_⟩
@@ -222,7 +240,7 @@ def StrRes (w : World) (r : World × Nat) : Prop := Good w r.1 ∧ r.2 < r.1.str
 /-- result of a set-producing operation -/
 def SetRes (w : World) (r : World × Nat) : Prop := Good w r.1 ∧ r.2 < r.1.sets.length
 /-- result of an array-producing operation -/
-def ArrRes (w : World) (r : World × Slice) : Prop := Good w r.1 ∧ r.2.arr < r.1.arrs.length
+def ArrRes (w : World) (r : World × Slice) : Prop := Good w r.1 ∧ sliceOk r.1 r.2
 
 theorem StrRes.self {w : World} (hw : Wf w) {p : Nat} (hp : p < w.strs.length) : StrRes w (w, p) :=
   ⟨Good.refl hw, hp⟩
@@ -239,11 +257,12 @@ theorem SetRes.after {w w₁ : World} {r : World × Nat} (g : Good w w₁) (h : 
 theorem newStream_res {w : World} (hw : Wf w) (l : List Int) (tail : Nat) : StrRes w (w.newStream l tail) := by
   unfold newStream
   have h₁ := allocArr_good hw (l ++ List.replicate tail 0)
-  have h₂ := allocStr_good h₁.1.wf (s := { (w.allocArr (l ++ List.replicate tail 0)).2 with len := l.length }) h₁.2
+  have h₂ := allocStr_good h₁.1.wf (s := { (w.allocArr (l ++ List.replicate tail 0)).2 with len := l.length })
+    ⟨h₁.2.1, h₁.2.2.1, by simp [allocArr]⟩
   exact ⟨h₁.1.trans h₂.1, h₂.2⟩
 
 theorem newNilStream_res {w : World} (hw : Wf w) : StrRes w w.newNilStream :=
-  allocStr_good hw (s := Slice.nil) hw.arr0
+  allocStr_good hw (s := Slice.nil) (sliceOk_nil hw.arr0)
 
 theorem newSet_res {w : World} (hw : Wf w) {m : AMap} (hm : mapOk w m) : SetRes w (w.newSet m) := by
   unfold newSet
@@ -266,11 +285,31 @@ theorem strClone_res {w : World} (hw : Wf w) (p : Nat) : StrRes w (w.strClone p)
 
 /-! ### in-place writes -/
 
-/-- a write into an array keeps the world well-formed (array count unchanged) -/
+/-- an in-place write never shortens a backing array -/
+theorem writeArr_arrAt_len (w : World) (a pos : Nat) (l : List Int) (b : Nat) :
+    (w.arrAt b).length ≤ ((w.writeArr a pos l).arrAt b).length := by
+  by_cases hab : a = b
+  · subst hab
+    by_cases ha : a < w.arrs.length
+    · simp only [writeArr, arrAt, List.getD_eq_getElem?_getD, List.getElem?_set, ha, if_true]
+      simp only [Option.getD_some, List.length_append, List.length_take, List.length_drop]
+      omega
+    · have : (w.writeArr a pos l).arrAt a = w.arrAt a := by
+        simp [writeArr, arrAt, List.getD_eq_getElem?_getD, List.getElem?_set, ha]
+      rw [this]; exact Nat.le_refl _
+  · have : (w.writeArr a pos l).arrAt b = w.arrAt b := by
+      simp [writeArr, arrAt, List.getD_eq_getElem?_getD, List.getElem?_set, hab]
+    rw [this]; exact Nat.le_refl _
+
+theorem sliceOk_writeArr {w : World} (a pos : Nat) (l : List Int) {s : Slice} (hs : sliceOk w s) :
+    sliceOk (w.writeArr a pos l) s :=
+  ⟨by simpa [writeArr] using hs.1, Nat.le_trans hs.2.1 (writeArr_arrAt_len w a pos l s.arr), hs.2.2⟩
+
+/-- a write into an array keeps the world well-formed (array count unchanged, no array shortened) -/
 theorem writeArr_wf {w : World} (hw : Wf w) (a pos : Nat) (l : List Int) : Wf (w.writeArr a pos l) := by
   refine ⟨?_, ?_, hw.sets, hw.maps⟩
   · simpa [writeArr] using hw.arr0
-  · intro s hs; simpa [writeArr] using hw.strs s hs
+  · intro s hs; exact sliceOk_writeArr a pos l (hw.strs s hs)
 
 /-- a write into an array allocated after `w` does not disturb `w` -/
 theorem writeArr_fresh {w w₁ : World} (g : Good w w₁) {a : Nat} (ha : w.arrs.length ≤ a) (pos : Nat) (l : List Int) :
